@@ -142,12 +142,13 @@ func c17Graph(c *fw.Ctx, seq []int) *fw.Violation {
 func c17GraphLen(c *fw.Ctx) int { return c.Pick(4, 5) }
 
 func init() {
-	var gen *docGen
+	var gen, extra *docGen
 	var sweep []float64
 	const numChunk = 64
 	setup := func(t fw.Tier) {
 		if gen == nil {
 			gen = newDocGen(2, 2, docScalarsFull)
+			extra = newDocGen(1, 2, docScalarsExtra)
 			sweep = numSweep(t == fw.Thorough)
 		}
 	}
@@ -173,6 +174,10 @@ func init() {
 			case u < docUnits:
 				for i := u; i < gen.Count(); i += docUnits {
 					doc := gen.At(i)
+					c.Do(func() any { return c17Spec{Form: "doc", Doc: doc} }, func() *fw.Violation { return c17Doc(c, doc) })
+				}
+				for i := u; i < extra.Count(); i += docUnits {
+					doc := extra.At(i)
 					c.Do(func() any { return c17Spec{Form: "doc", Doc: doc} }, func() *fw.Violation { return c17Doc(c, doc) })
 				}
 			case u == docUnits:
